@@ -63,4 +63,11 @@ var metas = map[string]*meta{
 		Rule: "message bodies = optional minimal header block + every sequence of ≤4 (quick) / ≤6 (thorough) tokens over {a, ., .., .a, CRLF, LF, CR, NUL, 0xFF 0xFE, space, LONG = one 70000-byte line (≤1 quick / ≤2 thorough per body)}, plus a size ladder {1, 4095, 4096, 4097, 65535, 65536, 65537, 1 MiB, 4 MiB} with and without final newline; mem and file. Each body is sent through a real SMTP session (dot-stuffing after CRLF and bare LF) and read back through Store.Source(), REST /source, web UI /source and POP3 RETR; each must be Return-Path + Received + the transmitted bytes modulo line-ending normalisation; sizes reported by Size(), REST list, POP3 STAT/LIST/RETR must equal the stored length. Non-trivial = the server stored the message; distinct bodies.",
 		Assumptions: []string{"a robust client dot-stuffs after bare LF as well (Go's DotWriter does); a body containing LF.LF sent by a CRLF-only encoder is SMTP smuggling and outside the statement", "runs of CR directly before LF are part of the line ending for comparison", "bodies the server refuses (451, undecodable header block) are counted, not alarmed on: the statement is about stored messages"},
 	},
+	"C04": {
+		ID: "C04", Level: "exploration",
+		Parts: []part{{Name: "rel", Bin: "std", Shards: 16}, {Name: "agree", Bin: "std", Shards: 8}},
+		Primary: "rel",
+		Rule: "rel: every string of length ≤5 (quick) / ≤7 (thorough) over the 13 symbols {a B 1 . + - @ \" \\ space [ ] :} plus 280 structured addresses (quoted/escaped locals, source routes, IPv4/IPv6 literals, mixed case, '+' and '.' placements), in each of local/full/domain naming; for every address NewRecipient accepts: name non-empty; ExtractMailbox(name)==name; read-time name == receive-time name; every accepted case variant and every accepted ±'+extension' variant names the same mailbox. agree: each structured address is delivered over SMTP and then asked for by the original address and by the name through REST list, web UI message and POP3 USER; each must show the message. Non-trivial = the address is accepted by RCPT; distinct strings.",
+		Assumptions: []string{"relations only (no expected names): fixed point, case, +extension, non-empty", "an address RCPT refuses is outside the property"},
+	},
 }
